@@ -238,7 +238,7 @@ def plan_C17(chk, tier, seed):
         judge_vectors(chk, cfg, r, run, ["C17"])
     # every member of every response over the lattice of its type must come out as a COMPLETE message
     simple(chk, "MC_Responses", ["all"] if tier == "quick" else ["none", "all"], ["C17"],
-           ["TypeOK", "FitsOrOneByteError", "Emit"], cases="ValueLattice")
+           ["TypeOK", "FitsOrOneByteError", "Emit"], cases="LatticeAll")
     value_traces(chk, "all", "MC_Buffer", "MC_Cases", 1500 if tier == "quick" else 30000, seed, "C17.values")
     # complete exchanges over a reused buffer: histories of two exchanges, with the liveness property
     # that every exchange terminates
@@ -269,7 +269,26 @@ def judge_vectors(chk, cfg, r, run, props):
         if first:
             v = json.loads(first); v["cfg"] = cfg
             chk.sample(v)
-    summary, recs = replay(cfg, r["vec_path"], run, props=props)
+    try:
+        summary, recs = replay(cfg, r["vec_path"], run, props=props)
+    except ToolError as e:
+        if "harness build failed" not in str(e):
+            raise
+        # the public API changed shape (a member's type, a removed field): the projection harness does
+        # not compile against this tree.  The thin wire-level harness touches no struct field; it
+        # still decides acceptance / status / re-encoding, which is judged here.
+        log("projection harness does not build for %s; falling back to the wire-level harness" % cfg)
+        chk.notes.append("main harness does not build for %s (API change); judged by the wire-level harness only" % cfg)
+        s3, recs3 = replay_wire(cfg, r["vec_path"], run, props=props)
+        chk.replayed += s3.get("compared", 0)
+        for x in recs3[:40]:
+            x["cfg"] = cfg
+            chk.violation(x, "wire-level harness: %s %s deviates from the model: diff=%s" % (
+                x.get("op"), (x.get("vector") or {}).get("tag"), x.get("diff")))
+        if s3.get("aborted"):
+            chk.violation({"cfg": cfg, "vector": {"op": "wire", "run": run}, "outcome": "abort"},
+                          "the wire-level harness aborted: %s" % s3.get("stderr", "")[-300:])
+        return
     if summary.get("aborted"):
         # the code under test killed the process (abort, stack overflow, non-unwinding panic such as a
         # violated unsafe precondition): find the vector at which it died, report it, and go on
@@ -446,6 +465,8 @@ def plan_C14(chk, tier, seed):
     simple(chk, "MC_Filter", cfgs, ["C14"],
            ["TypeOK", "DecodeTotal", "DecodeFaithful", "TypeDecodeFaithful", "FilterInOrder", "Emit"],
            extra_constants="    MaxP = %d\n    MaxF = %d\n" % (mp, mf))
+    # identifiers beyond 32 bits that are congruent to the known ones (a wider integer narrowed by a cast)
+    simple(chk, "MC_Lattice", ["all"], ["C14"], ["TypeOK", "DecodeTotal", "LimitsExact", "Emit"], cases="ParamAlgCases")
     # entries whose members come in another order, entries followed by other entries and parameters
     simple(chk, "MC_Requests", ["all"], ["C14"], ["TypeOK", "DecodeTotal", "DecodeFaithful", "Emit"], cases="OrderCases")
     chk.exhaustive = True
